@@ -276,6 +276,16 @@ fn any(v: &Value, f: &dyn Fn(&Value) -> bool) -> bool {
     }
 }
 
+/// Depth at which the decoder meets the deepest node when the root is at depth 0.
+fn vdepth(v: &Value) -> usize {
+    match v {
+        Value::Array(x) => x.iter().map(|i| 1 + vdepth(i)).max().unwrap_or(0),
+        Value::Map(x) => x.iter().map(|(k, w)| 1 + vdepth(k).max(vdepth(w))).max().unwrap_or(0),
+        Value::Tag(_, x) => 1 + vdepth(x),
+        _ => 0,
+    }
+}
+
 fn has_tag(v: &Value) -> bool {
     any(v, &|x| matches!(x, Value::Tag(..)))
 }
@@ -390,6 +400,17 @@ fn abi_value(vs: &str) -> String {
                 oracle.push("encode-accepts-tag-or-duplicate-key".into());
             }
             let dec = decode_value(bytes);
+            // documented domain: decode_value rejects nesting deeper than MAX_DECODE_DEPTH
+            if vdepth(&v) > echo_wasm_abi::canonical::MAX_DECODE_DEPTH {
+                let ds = match &dec {
+                    Ok(d) => {
+                        oracle.push("decode-accepts-nesting-beyond-max-depth".into());
+                        shows(d)
+                    }
+                    Err(e) => format!("E:{}", err_code(e)),
+                };
+                return format!("abi enc={} dec={} oracle={}", tohex(bytes), ds, fin(&oracle));
+            }
             let ds = match &dec {
                 Ok(d) => {
                     if !sem_eq(&v, d) {
@@ -430,9 +451,9 @@ fn fin(o: &[String]) -> String {
 }
 
 fn abi_bytes(b: &[u8]) -> String {
-    if alloc_risky(b) {
-        return "abi skip=alloc-guard".into();
-    }
+    // since /repo 65efcf1 declared lengths are charged against bytes.len() before any allocation,
+    // so huge declared lengths are safe to feed (the old guard is kept for reference only)
+    let _ = alloc_risky;
     let mut oracle: Vec<String> = Vec::new();
     match decode_value(b) {
         Err(e) => format!("abi dec=E:{} reenc=- oracle=ok", err_code(&e)),
